@@ -386,8 +386,12 @@ theorem arangeF_spec (start stop step : ℝ) (n : Nat) (hs : step ≠ 0) (hq : (
   have hstop : stop = start + n * step := by
     field_simp at hq; linarith
   refine ⟨?_, by simp [arangeF], ?_, ?_, hstop.symm⟩
-  · show ((round ((stop - start) / step) : ℤ) : ℝ) = n
-    rw [hq]; simp
+  · show Fn.round ((stop - start) / step) = (n : ℝ)
+    rw [hq, fn_round, if_pos (Nat.cast_nonneg n)]
+    have hfl : ⌊(n : ℝ) + 1 / 2⌋ = (n : ℤ) := by
+      rw [Int.floor_eq_iff]
+      constructor <;> push_cast <;> linarith
+    rw [hfl]; simp
   · intro i h; simp [arangeF]
   · intro i hi
     have hi' : (i : ℝ) < n := by exact_mod_cast hi
